@@ -425,9 +425,11 @@ Definition poll (st : state) : state * option error :=
 
 (* ---- start_jobs_without_delay=False: _schedule_new_tasks asks the backend for the busy trials ------------
    ScriptedBackend.busy_trial_ids looks at every active worker (like LocalBackend, which re-reads the job
-   status) and returns the active ones. Python: when fewer workers are busy than the tuner has running trials,
-   `running_trials_ids = set(x[0] for x in busy_trial_ids)` REBINDS the local name: the trials started in this
-   call are added to that new set, the caller's set (the one the loop polls) is left as it was. *)
+   status) and returns the active ones. /repo 1516ffc: num_busy_workers = max(len(busy_trial_ids),
+   len(running_trials_ids)) - a running trial whose job is done already still counts as busy until its final
+   status has been fetched - and the trials started are added to the caller's running set.
+   (Before that commit the code rebound its local name running_trials_ids to set(busy ids) when fewer workers were
+   busy than trials running, so trials started in that call were never polled: F-C02-2.) *)
 Definition busy_look (st : state) : state * list nat :=
   let ids := seq 0 (s_ntrials st) in
   let st1 := all_trial_results ids st in
@@ -437,12 +439,8 @@ Definition busy_look (st : state) : state * list nat :=
 Definition schedule_new_tasks_busy (st : state) : state * sched_out :=
   let threshold := if async prm then n_workers prm else 1%nat in
   let '(st, busy) := busy_look st in
-  let nbusy := length busy in
+  let nbusy := Nat.max (length busy) (length (s_running st)) in
   if Nat.leb threshold nbusy then (sleep st, SOk)
-  else if Nat.ltb nbusy (length (s_running st)) then
-    let caller_set := s_running st in
-    let '(st2, r) := schedule_k (n_workers prm - nbusy) (set_running st busy) in
-    (set_running st2 caller_set, r)
   else schedule_k (n_workers prm - nbusy) st.
 
 Fixpoint loop_gen (sched : state -> state * sched_out) (fuel : nat) (st : state) (c ex : bool) : state * loop_exit :=
@@ -472,7 +470,7 @@ Fixpoint loop_gen (sched : state -> state * sched_out) (fuel : nat) (st : state)
 
 (* the loop of Tuner.run with start_jobs_without_delay=True (default; all theorems are about this one) ... *)
 Definition loop := loop_gen schedule_new_tasks.
-(* ... and with start_jobs_without_delay=False (correspondence and finding only) *)
+(* ... and with start_jobs_without_delay=False *)
 Definition loop_b := loop_gen schedule_new_tasks_busy.
 
 Definition run_loop (fuel : nat) : state * loop_exit :=
